@@ -29,6 +29,7 @@ def run(ctx, res):
     r2.rule_unconditional(S, res, {"pre"}, cs)
     r2.rule_per_element(S, res, {"pre"}, cs)
     r2.rule_conjunct(S, res, {"pre"}, cs)
+    r2.rule_adaptor_polarity(S, res, {"pre"}, cs)
     r2.rule_verified(S, res, {"pre"}, labs)
     r2.rule_broadcast_impl(S, res)
     r3.rule_commit_components(S, res)
